@@ -118,25 +118,5 @@ def _finalize(prog, res, fin):
   pairs = {'kernel': '_final_kernel_constraints',
            'scale': '_final_scale_constraints'}
   for var, attr in sorted(pairs.items()):
-    good = False
-    for c in ast.walk(fin.node):
-      if (isinstance(c, ast.Call) and dotted(c.func) == 'self.%s' % attr
-          and c.args and dotted(c.args[0]) == 'self.%s' % var):
-        # result must be written back to the same variable
-        for a in ast.walk(fin.node):
-          if (isinstance(a, ast.Call) and isinstance(a.func, ast.Attribute)
-              and a.func.attr in ('assign', 'assign_add')
-              and dotted(a.func.value) == 'self.%s' % var
-              and any(x is c for x in ast.walk(a))):
-            if a.func.attr == 'assign_add':
-              # assign_add(C(v) - v)
-              arg = a.args[0]
-              good = (isinstance(arg, ast.BinOp) and isinstance(
-                  arg.op, ast.Sub) and arg.left is c and dotted(
-                      arg.right) == 'self.%s' % var)
-            else:
-              good = a.args[0] is c
-    res.check(good, 'W1', '%s|%s' % (fin.qualname, var), fin.loc(),
-              'self.%s(self.%s) is written back to self.%s' % (attr, var, var),
-              'finalize_constraints does not apply self.%s to self.%s and '
-              'store the result' % (attr, var))
+    wiring.check_exact_store(prog, res, fin, var, attr)
+  res.floor('R1', 2)
